@@ -263,6 +263,17 @@ def check(doc, seeds, with_files, root, only=None):
             if status_of(t) != SealStatus.INVALID:
                 fails.setdefault("C15:unlisted:hash-change-not-invalid", f"changing character {pos} of the stored hash gives {status_of(t)}")
                 break
+        # ---- stored hash re-spelled: other letter case, blanks inside the quotes, a prefix, the digest of something else
+        for lb, H2 in (("upper", H.upper()), ("mixed", H[:32].upper() + H[32:]), ("padded", " " + H + " "), ("prefixed", "sha256:" + H), ("truncated", H[:63]),
+                       ("doubled", H + H)):
+            if H2 == H:
+                continue
+            for quoted in (True, False) if lb in ("upper", "mixed") else (True,):
+                t = re.sub(r'HASH::"?' + H + '"?', ('HASH::"' + H2 + '"') if quoted else ("HASH::" + H2), stext)
+                st_t = status_of(t)
+                if st_t is not None and st_t != SealStatus.INVALID:
+                    fails.setdefault(f"C15:unlisted:hash-respelled-not-invalid:{lb}", f"stored hash changed ({lb}: {H2[:20]!r}...) gives {st_t}")
+            stats["tampers"] += 1
         stats["tampers"] += 64
         # ---- files + CLI
         if with_files and root:
